@@ -464,9 +464,20 @@ func resSweep(rp *runner.Report) {
 	viol := func(sig, msg string) {
 		rp.Violation(&runner.ReplayFile{Scenario: "c20-sweep-" + buildName(), Sig: sig, Msg: msg, OpsText: []string{msg}, Kind: "c20sweep", Extra: map[string]interface{}{"build": buildName()}})
 	}
+	// every second type is the pointer type of its predecessor: T and *T are different resource types
+	tpOf := func(i int) reflect.Type {
+		if i%2 == 1 {
+			return reflect.PointerTo(mkType(i - 1))
+		}
+		return mkType(i)
+	}
 	for i := 0; i < limit; i++ {
-		ids[i] = ecs.ResourceTypeID(&w, mkType(i))
-		vals[i] = reflect.New(mkType(i)).Interface()
+		ids[i] = ecs.ResourceTypeID(&w, tpOf(i))
+		vals[i] = reflect.New(tpOf(i)).Interface()
+		if int(*(*uint8)(unsafe.Pointer(&ids[i]))) != i {
+			viol("res:sweep-id-dense", fmt.Sprintf("resource type number %d (%v) got ID %d", i, tpOf(i), *(*uint8)(unsafe.Pointer(&ids[i]))))
+			return
+		}
 	}
 	present := make([]bool, limit)
 	check := func(where string) (ok bool) {
@@ -518,10 +529,36 @@ func resSweep(rp *runner.Report) {
 		return
 	}
 	for i := 0; i < limit; i++ {
-		if ecs.ResourceTypeID(&w, mkType(i)) != ids[i] {
+		if ecs.ResourceTypeID(&w, tpOf(i)) != ids[i] {
 			viol("res:sweep-id", "resource ID changed by Reset")
 			return
 		}
+	}
+	// typed access paths with T and *T side by side
+	if pv := catchP(func() {
+		w2 := ecs.NewWorld()
+		a, pa := &resA{V: 5}, &resA{V: 6}
+		idA := ecs.AddResource(&w2, a)
+		idP := ecs.AddResource(&w2, &pa) // a resource of type *resA
+		if idA == idP {
+			panic("resA and *resA share a resource ID")
+		}
+		gp := generic.NewResource[*resA](&w2)
+		if ecs.GetResource[resA](&w2) != a || ecs.GetResource[*resA](&w2) != &pa || gp.Get() != &pa || !gp.Has() {
+			panic("Get returns the wrong value for resA / *resA")
+		}
+		gp.Remove()
+		if gp.Has() || !w2.Resources().Has(idA) || ecs.GetResource[resA](&w2) != a {
+			panic("removing the *resA resource disturbed the resA resource")
+		}
+		gp.Add(&pa)
+		w2.Resources().Remove(idA)
+		if !gp.Has() || gp.Get() != &pa || w2.Resources().Has(idA) {
+			panic("removing the resA resource disturbed the *resA resource")
+		}
+	}); pv != nil {
+		viol("res:pointer-typed", fmt.Sprintf("resource types resA and *resA side by side: %v", pv))
+		return
 	}
 	rp.Trans += evals
 	rp.Extra["resource_sweep_"+buildName()] = map[string]interface{}{"resource_types": limit, "checks": evals}
